@@ -236,6 +236,27 @@ def f3(run, tu):
             why = 'facts at the store: %s' % sorted(f for f in facts if str(ld) in f)
         run.ob('F3/long-double-to-long-double-path-is-bit-exact', fname, 'source and target long double -> raw read, raw write', okf,
                tu.where(sites[0]) if sites else tu.where(tu.func(fname)), why)
+    # the bit-exact path of do_cast tests whether the *converted source* is a long double cdata: a cdata source must therefore reach that
+    # test through the one conversion that keeps a long double as a cdata (convert_to_object), or unconverted; any other conversion of
+    # the source is only allowed where the source is known not to be a long double
+    g = cfg_of(tu, 'do_cast')
+    dc = tu.func('do_cast')
+    for l_, r_, o_, x_ in cx.assignments(dc):
+        if cx.lhs_text(l_) != 'io' or o_ not in ('=', 'init'):
+            continue
+        rr = cx.strip(r_, casts=True)
+        if rr.get('kind') != 'CallExpr':
+            okc, why = cx.render(rr) == 'ob', 'io = %s' % cx.render(rr)
+        elif cx.callee_name(rr) == 'convert_to_object':
+            a_ = [cx.render(y) for y in cx.call_args(rr)]
+            okc, why = a_ == ['cdsrc->c_data', 'cdsrc->c_type'], 'convert_to_object(%s)' % ', '.join(a_)
+        else:
+            facts = g.fact_texts(g.node_of(x_).id)
+            excl = [f for f in facts if f.startswith('F:') and re.search(r'cdsrc->c_type->ct_flags & %d$' % ld, f)]
+            okc = bool(excl)
+            why = ('%s turns a long double cdata into a Python float (53 significant bits) before the "both sides are long double" test is made; '
+                   'facts here: %s' % (cx.render(rr)[:50], sorted(f for f in facts if 'cdsrc' in f)))
+        run.ob('F3/cdata-source-reaches-the-long-double-test-unnarrowed', 'do_cast', 'io = %s' % cx.render(rr)[:60], okc, tu.where(x_), why)
     F = '_cffi_to_c_long_double'
     g = cfg_of(tu, F)
     rets = [r for r in g.nodes if r.kind == 'return']
